@@ -96,3 +96,23 @@ where
 
     best_input
 }
+
+// Verification hooks (only compiled with `--cfg alpha_g_verif`).
+#[cfg(alpha_g_verif)]
+pub(crate) fn verif_nn_greedy_deconvolution(
+    signal: &[f64],
+    response: &[f64],
+    offset: usize,
+    look_ahead: usize,
+) -> (f64, Vec<f64>) {
+    nn_greedy_deconvolution(signal, response, offset, look_ahead)
+}
+#[cfg(alpha_g_verif)]
+pub(crate) fn verif_ls_deconvolution(
+    signal: &[f64],
+    response: &[f64],
+    offsets: std::ops::RangeInclusive<usize>,
+    look_aheads: std::ops::RangeInclusive<usize>,
+) -> Vec<f64> {
+    ls_deconvolution(signal, response, offsets, look_aheads)
+}
